@@ -100,6 +100,8 @@ HkEv(e) ==
        /\ Chk({"C10"}, "hk-other-emissions",
               /\ Tags(e.sent) \subseteq {"init", "nodeinfo", "rot"}
               /\ \A a \in everyone : CountTo(e.sent, a, {"rot"}) <= (IF a \in h.rotTo /\ a \notin n.plain THEN 1 ELSE 0)))
+  \* C15: a peer is removed "with its routes": after the housekeeping no claim and no learned address points at a non-peer
+  /\ Chk({"C15"}, "hk-routes-of-removed-peers-gone", NextHopsArePeers(obs) /\ SeqSet(e.post.cachep) \subseteq Addrs(obs.peers))
   /\ Chk({"C10"}, "hk-no-interface-write", e.wrote = 0)
   /\ Adopt(e) /\ UNCHANGED <<now, inst>>
 
@@ -137,6 +139,8 @@ RecvEv(e) ==
               /\ replyOK
               /\ \A a \in (Dests(e.sent) \cup Dests(r.out)) \ {e.src} : CountTo(e.sent, a, {"init"}) = Count(r.out, <<a, "init">>)
               /\ Tags(e.sent) \subseteq {"init", "empty", "rot"}))
+  \* C10: only what an established peer sent as payload reaches the interface
+  /\ Chk({"C10"}, "interface-write-only-from-peers", e.wrote = 0 \/ (route = "peer" /\ e.res \in {"data", "err", "panic"}))
   /\ Chk({"C10"}, "recv-interface-write", e.wrote = (IF e.res = "data" THEN 1 ELSE 0) \/ (e.res \in {"err", "panic"} /\ e.wrote <= 1))
   \* C01: a peer is added only for a party whose key the node trusts and that trusts the node's key
   /\ When(e.res \in {"initialized", "initialized-reply"} /\ KnownInst(e.info.nid),
